@@ -46,9 +46,16 @@ def cases(ctx):
         if ctx.mine(i):
             yield {'kind': 'short', 'n': n}
     for what in ('header24', 'max', 'max+1', 'max+1000000', 'negative_looking'):
-        i += 1
-        if ctx.mine(i):
-            yield {'kind': 'length', 'what': what}
+        for cfgmax in (None, 3000, 9000, 24):
+            i += 1
+            if ctx.mine(i):
+                yield {'kind': 'length', 'what': what, 'configured_max': cfgmax}
+    for cfgmax in (3000, 9000):
+        for enc in ('latin_1', 'cp500'):
+            for fmt in ('vbs', '1014'):
+                i += 1
+                if ctx.mine(i):
+                    yield {'kind': 'writer_with_configured_max', 'configured_max': cfgmax, 'enc': enc, 'fmt': fmt}
     for bit in range(2, 129):
         for enc in ('latin_1', 'cp500'):
             i += 1
@@ -199,6 +206,56 @@ def judge(ctx, case):
             ctx.violation('short_input:not_reported_invalid_with_reason', {'case': case, 'info': info})
         return
     bm_ok = bytes.fromhex('c0000000000000000000000000000000')
+    if kind in ('length', 'writer_with_configured_max') and case.get('configured_max'):
+        # "the configured maximum" is whatever the configuration says NOW
+        from cardutil.config import config as live
+        old = live.get('MAX_VBS_RECORD_LENGTH')
+        live['MAX_VBS_RECORD_LENGTH'] = case['configured_max']
+        ctx.maxlen_saved, ctx.maxlen = ctx.maxlen, case['configured_max']
+        ctx.count('cases run with MAX_VBS_RECORD_LENGTH changed at run time')
+        try:
+            return judge(ctx, dict(case, configured_max=None, _note='max=%d' % case['configured_max']))
+        finally:
+            live['MAX_VBS_RECORD_LENGTH'] = old
+            ctx.maxlen = ctx.maxlen_saved
+    if kind == 'writer_with_configured_max':
+        # a writer file whose first record is just under the configured maximum must be valid; ipm_info must agree with the reader
+        enc, blocked = case['enc'], case['fmt'] == '1014'
+        rng = ctx.rng_global('cfgmax', ctx.maxlen, enc, blocked)
+        want = ctx.maxlen - rng.randint(0, 40)
+        msg = {'MTI': '1240', 'DE2': '5' * 16}
+        body = want - 20 - 18
+        for b in (54, 72, 111, 127, 63, 31):
+            take = min(999 if b != 31 else 99, body - (3 if b != 31 else 2))
+            if take <= 0:
+                break
+            msg['DE%d' % b] = letters(rng, enc, take)
+            body -= take + (3 if b != 31 else 2)
+        for b in (48, 62, 123, 124, 125):
+            take = min(999, body - 3)
+            if take < 8:
+                break
+            msg['DE%d' % b] = '%04d%03d%s' % (b, take - 7, letters(rng, enc, take - 7))
+            body -= take + 3
+        f = io.BytesIO()
+        try:
+            with m.IpmWriter(f, encoding=enc, blocked=blocked) as w:
+                w.write(dict(msg))
+                w.write({'MTI': '1240', 'DE2': '4' * 16})
+        except Exception as ex:  # noqa
+            ctx.inconclusive_because('writer failed while building a C17 file: %r' % (ex,))
+            return
+        data = f.getvalue()
+        first = int.from_bytes(data[:4], 'big')
+        ctx.seen('first record lengths under a changed maximum', first // 1000 * 1000)
+        k1, info = ctx.call(m.ipm_info, io.BytesIO(data), budget=100000)
+        ctx.count('ipm_info calls on writer output')
+        if k1 != 'ok':
+            ctx.violation('writer_file:exception:' + type(info).__name__, {'case': case, 'error': repr(info)})
+        elif first <= ctx.maxlen and info.get('isValidIPM') is not True:
+            ctx.violation('writer_file:reported_invalid:first_record_within_configured_maximum',
+                          {'case': case, 'first_record_length': first, 'configured_max': ctx.maxlen, 'info': info})
+        return
     if kind == 'length':
         what = case['what']
         n = {'header24': 40, 'max': ctx.maxlen, 'max+1': ctx.maxlen + 1, 'max+1000000': ctx.maxlen + 10 ** 6,
@@ -211,7 +268,7 @@ def judge(ctx, case):
         if k1 != 'ok':
             ctx.violation('length:%s' % ('step_budget' if k1 == 'steps' else 'exception:' + type(info).__name__),
                           {'case': case, 'error': repr(info)})
-        elif what in ('header24', 'max'):
+        elif what in ('header24', 'max') and n <= ctx.maxlen:
             if info.get('isValidIPM') is not True:
                 ctx.violation('length:%s_rejected' % what, {'case': case, 'info': info})
         elif info.get('isValidIPM') is not False or not info.get('reason'):
@@ -260,6 +317,8 @@ def require(m):
         reasons.append('no unblocked file with 0x40 0x40 at a later trailer position (2026, 3040, ...) but not at 1012')
     if not m['counters'].get('files whose first record is longer than the 2500-byte sample'):
         reasons.append('no file whose first record exceeds the inspection sample')
+    if not m['counters'].get('cases run with MAX_VBS_RECORD_LENGTH changed at run time'):
+        reasons.append('configured maximum never changed at run time')
     if set(m['classes'].get('first-bitmap bit classes', ())) != {'configured', 'unconfigured'}:
         reasons.append('bitmap classes not both driven')
     return reasons
